@@ -66,6 +66,10 @@ func (pac *PACType) Unmarshal(b []byte) (err error) {
 	if err != nil {
 		return
 	}
+	// Each buffer has a 16 byte entry in the table that follows the 8 byte header
+	if uint64(pac.CBuffers)*16+8 > uint64(len(b)) {
+		return fmt.Errorf("PAC buffer count %d exceeds the size of the PAC", pac.CBuffers)
+	}
 	buf := make([]InfoBuffer, pac.CBuffers, pac.CBuffers)
 	for i := range buf {
 		buf[i].ULType, err = r.Uint32()
@@ -89,6 +93,9 @@ func (pac *PACType) Unmarshal(b []byte) (err error) {
 // https://msdn.microsoft.com/en-us/library/cc237954.aspx
 func (pac *PACType) ProcessPACInfoBuffers(key types.EncryptionKey, l *log.Logger) error {
 	for _, buf := range pac.Buffers {
+		if buf.Offset > uint64(len(pac.Data)) || buf.Offset+uint64(buf.CBBufferSize) > uint64(len(pac.Data)) {
+			return fmt.Errorf("PAC info buffer of type %d is outside the PAC data", buf.ULType)
+		}
 		p := make([]byte, buf.CBBufferSize, buf.CBBufferSize)
 		copy(p, pac.Data[int(buf.Offset):int(buf.Offset)+int(buf.CBBufferSize)])
 		switch buf.ULType {
